@@ -279,7 +279,7 @@ impl<B: StarkField> AirContext<B> {
 
         // we use the identity: ceil(a/b) = (a + b - 1)/b
         let num_constraint_col =
-            (highest_constraint_degree - transition_divisior_degree).div_ceil(trace_length);
+            (highest_constraint_degree - transition_divisior_degree + 1).div_ceil(trace_length);
 
         cmp::max(num_constraint_col, 1)
     }
